@@ -466,7 +466,22 @@ pub async fn drive(case: &Case) -> Outcome {
     let cap = Duration::from_millis(cap_ms);
     let workload = async {
         let _ = client_task.await;
-        let _ = server_task.await;
+        // the listener's accept() is not bound to any connection: if the client is finished and the server
+        // never saw a connection, give it a grace period and stop waiting
+        let mut server_task = server_task;
+        loop {
+            tokio::select! {
+                biased;
+                _ = &mut server_task => break,
+                _ = tokio::time::sleep(Duration::from_secs(10)) => {
+                    let client_gone = ctx.log.lock().unwrap().terminated_at[0].is_some();
+                    if server_conn.lock().unwrap().is_none() && client_gone {
+                        server_task.abort();
+                        break;
+                    }
+                }
+            }
+        }
     };
     let completed = tokio::time::timeout(cap, workload).await.is_ok();
     let completed_at = ctx.now_ms();
@@ -511,6 +526,7 @@ pub async fn drive(case: &Case) -> Outcome {
         .started
         .keys()
         .filter(|k| !l.finished.contains_key(*k) && !(case.profile == Profile::Unbounded && k.as_str() == "s.accept_conn"))
+        .filter(|k| !(k.as_str() == "s.accept_conn" && l.terminated_at[0].is_some()))
         .cloned()
         .collect();
     // neither endpoint may conclude that its peer broke the protocol: the peer is the same stack and the
@@ -543,7 +559,10 @@ pub async fn drive(case: &Case) -> Outcome {
             } else if !failed.is_empty() {
                 out.violate("liveness-transfer", "failed", format!("bounded faults but operations failed: {failed:?}"), completed_at);
             } else {
-                let budget = 60_000 + 20 * rtt_ms;
+                let rounds = crate::window_rounds(&case.streams, &case.client, &case.server);
+                let total: u64 = case.streams.iter().map(|s| (s.size + s.resp_size) as u64).sum();
+                let tx_ms = if case.net.bandwidth > 0 { 4 * total / case.net.bandwidth as u64 } else { 0 };
+                let budget = 60_000 + (20 + 4 * rounds) * (rtt_ms + 2 * case.net.jitter_ms as u64 + 25) + tx_ms;
                 if completed_at > last_fault + budget {
                     out.violate("liveness-transfer", "late", format!("workload completed at {completed_at} ms, more than {budget} ms after the last fault ({last_fault} ms)"), completed_at);
                 }
